@@ -688,6 +688,8 @@ func checkC18(r *Report) {
 		r.floor("C18.e/ALIAS-ISOLATED", "by-value attribute-set parameters in api.go", n, 1)
 		nET := entryOwnTypeRule(r, p, "C18.h/ENTRY-OWN-TYPE", "util/resolve/api.go")
 		r.floor("C18.h/ENTRY-OWN-TYPE", "requirements built inside loops in api.go", nET, 2)
+		nNF := sentinelWrappedRule(r, p, "C18.i/NOTFOUND-WRAPPED", "ErrNotFound")
+		r.floor("C18.i/NOTFOUND-WRAPPED", "not-found answers of the clients in package resolve", nNF, 6)
 	}
 	// C18.f
 	{
